@@ -160,7 +160,12 @@ def static_block(_b):
         assumed |= s.assumed_pure
         if is_entry:
             # database writers legitimately update the in-memory registries; everything else may write no argument
-            w = {p: v for p, v in s.writes.items() if p in OBJECT_PARAMS or p.startswith('iso')}
+            # every argument: the isotherm(s), their adsorbate / material, and plain data the caller passes (arrays, dicts)
+            # plain data the caller passes (arrays, lists, dicts) for the calls the property quantifies over: characterisation,
+            # model_iso, iast_* -- the same call with the same argument objects must give the same outcome again
+            data_args = mname.startswith('pygaps.characterisation') or mname == 'pygaps.iast.pgiast' or qual == 'pygaps.modelling.model_iso'
+            w = {p: v for p, v in s.writes.items() if p in OBJECT_PARAMS or p.startswith('iso')
+                 or (data_args and p not in ('cursor', 'kwargs', 'plot_parameters', 'save_parameters', 'ax', 'fig'))}
             ok = not w
             detail = '; '.join(f"{p}: line {v[0][0]} {v[0][1]}" for p, v in w.items())
             obs.append(static_ob(f"{P}/{qual.replace('pygaps.', '')}/modifies.arguments_empty/static", ok, detail,
